@@ -110,6 +110,12 @@ func declName(fd *ast.FuncDecl) string {
 		star = "*"
 		t = s.X
 	}
+	switch g := t.(type) { // a generic receiver `(b *base[T])`
+	case *ast.IndexExpr:
+		t = g.X
+	case *ast.IndexListExpr:
+		t = g.X
+	}
 	if id, ok := t.(*ast.Ident); ok {
 		return "(" + star + id.Name + ")." + fd.Name.Name
 	}
@@ -117,7 +123,26 @@ func declName(fd *ast.FuncDecl) string {
 }
 
 // Decl returns the declaration with the given qualified name or nil.
-func (c *Ctx) Decl(name string) *ast.FuncDecl { return c.decls[name] }
+func (c *Ctx) Decl(name string) *ast.FuncDecl {
+	if fd := c.decls[name]; fd != nil || !strings.HasPrefix(name, "(*") {
+		return fd
+	}
+	// "(*list).String" promoted from the base struct embedded in the container (with the ego field): the base's declaration
+	if iv, ok := invCache[c]; ok {
+		for _, ct := range iv.Conts {
+			prefix := "(*" + ct.Named.Obj().Name() + ")."
+			if ct.Base == nil || !strings.HasPrefix(name, prefix) {
+				continue
+			}
+			if obj, _, _ := types.LookupFieldOrMethod(types.NewPointer(ct.Named), true, c.Types, strings.TrimPrefix(name, prefix)); obj != nil {
+				if f, ok := obj.(*types.Func); ok {
+					return c.DeclOf(f.Origin())
+				}
+			}
+		}
+	}
+	return nil
+}
 
 // DeclNames returns all declared function names, sorted.
 func (c *Ctx) DeclNames() []string {
